@@ -39,7 +39,7 @@ pub fn accept_check(buf: &[u8], loc: &mut Local) {
                     format!("Err ({why}, {} bytes)", buf.len()),
                     format!("Ok(DF{} crc={:06x})", df_code(&f), f.crc),
                 ),
-                Decoded::Panic(_) => loc.inc("panics_left_to_C01"),
+                Decoded::Panic(p) => loc.viol("acceptance", format!("{class_df}:panic-instead-of-error"), hex(buf), "Err".into(), format!("panic: {p}")),
             }
         }
         Ok(lay) => match real {
@@ -68,7 +68,8 @@ pub fn accept_check(buf: &[u8], loc: &mut Local) {
                     loc.viol("acceptance", format!("{}:rejected", lay.leaf), hex(buf), "Ok(frame)".into(), format!("Err({e})"));
                 }
             }
-            Decoded::Panic(_) => loc.inc("panics_left_to_C01"),
+            // a frame of a supported format with enough bytes is accepted: a panic is neither a frame nor an error
+            Decoded::Panic(p) => loc.viol("acceptance", format!("{}:panic-instead-of-frame", lay.leaf), hex(buf), "Ok(frame)".into(), format!("panic: {p}")),
         },
     }
 }
